@@ -42,6 +42,13 @@ enum V {
     B(bool),
     N,
     D(String),
+    /// the statement does not fix the outcome (the as_i64 / as_f64 helpers use their own
+    /// parsers, whose treatment of an explicit plus sign is not documented): anything is accepted
+    Wild,
+}
+
+fn v_eq(a: &[V], b: &[V]) -> bool {
+    a.len() == b.len() && a.iter().zip(b.iter()).all(|(x, y)| *x == V::Wild || *y == V::Wild || x == y)
 }
 
 #[derive(Clone, Debug, PartialEq)]
@@ -132,6 +139,7 @@ fn conv(d: &Data, k: K, pos: (u32, u32)) -> Result<V, E> {
             Data::Float(v) => V::F(v.to_bits()),
             Data::DateTime(v) => V::F(v.as_f64().to_bits()),
             Data::Bool(b) => V::F((*b as i32 as f64).to_bits()),
+            Data::String(s) if s.starts_with('+') => V::Wild,
             Data::String(s) | Data::DateTimeIso(s) | Data::DurationIso(s) => match s.parse::<f64>() {
                 // only plain decimal strings are generated, on which fast-float and std agree
                 Ok(x) => V::F(x.to_bits()),
@@ -144,6 +152,9 @@ fn conv(d: &Data, k: K, pos: (u32, u32)) -> Result<V, E> {
             // deserialize_as_{i64,f64}_or_{none,string}: Data::deserialize (date-times arrive as
             // floats, ISO strings as strings), then as_i64 / as_f64, else None / Err(to_string)
             let as_str = |s: &String| -> Result<V, E> {
+                if s.starts_with('+') {
+                    return Ok(V::Wild);
+                }
                 Ok(match k {
                     K::HelperI64 => s.parse::<i64>().map(V::I).unwrap_or(V::N),
                     K::HelperI64Str => s.parse::<i64>().map(V::I).unwrap_or_else(|_| V::S(s.clone())),
@@ -414,6 +425,7 @@ fn gen_cell(rng: &mut Rng, serial: &mut u64, allow_err: bool) -> Data {
         4 => Data::String(match k % 7 {
             0 => "9223372036854775808".to_string(), // i64::MAX + 1
             1 => "-9223372036854775808".to_string(),
+            2 => format!("+{}", k % 300), // an explicit plus sign is accepted by the integer targets
             _ => format!("{}", (k as i64 % 60) - 30),
         }),
         5 => Data::String(format!("{}.5", k)),
@@ -603,7 +615,7 @@ fn run_target<T: Target>(s: &Sheet, cfg: &Cfg, out: &mut UnitResult, ctx_json: &
         out.sum("records_compared", 1);
         match (item, expected) {
             (Ok(v), Ok(want)) => {
-                if v.to_v() != want {
+                if !v_eq(&v.to_v(), &want) {
                     out.fail(class("record_value"), json!({"ctx": ctx_json, "row": r, "got": format!("{:?}", v.to_v()), "want": format!("{:?}", want)}));
                     return;
                 }
